@@ -2061,14 +2061,20 @@ Boolean INCLUDE_Processor(PInputTag PInp, as_dynstr_t* p_dest) {
 
     Result = True;
 
-    if (feof(PInp->Datei)) {
+    if (feof(PInp->Datei) || ferror(PInp->Datei)) {
         *p_dest->p_str = '\0';
     } else {
+        errno = 0;
         Count = ReadLnCont(PInp->Datei, p_dest);
-        /**ChkIO(ErrNum_FileReadError);**/
+
+        /* a source that cannot be read (e.g. a directory) ends here */
+
+        if (ferror(PInp->Datei)) {
+            ChkIO(ErrNum_FileReadError);
+        }
     }
     PInp->LineZ = CurrLine = (MomLineCounter += Count);
-    if (feof(PInp->Datei)) {
+    if (feof(PInp->Datei) || ferror(PInp->Datei)) {
         Result = False;
     }
 
